@@ -349,6 +349,7 @@ PROPS = {
         "units": [
             {"pkg": "./c03", "shards": 4, "shards_thorough": 16, "timeout": 300},
             {"pkg": "./mainpkg", "run": "^TestC03", "shards": 2, "shards_thorough": 4, "timeout": 300},
+            {"pkg": "./c08", "run": "^TestC03", "shards": 1, "shards_thorough": 2, "timeout": 300},
         ],
         "rule": ("rapid-generated (table, requests) pairs: 1-12 routes over a colliding universe of hosts (exact names sharing suffixes, *.x wildcards at several depths, "
                  "host:80/:443/:8080, host-less, written in mixed case) and nested paths; requests = route hosts / wildcard instances / unrelated names in random letter case "
